@@ -13,52 +13,68 @@ namespace LedgerDrv
 /-! ### the scripted test contract (mirror of `runProgram` in harness/cmd/hledger/world.go) -/
 
 def contractAddr : Bytes := List.replicate 20 0xEE
-def rawKey (k : UInt8) : Bytes := 0x05 :: (contractAddr ++ [k])
+/-- raw state-store key of a contract key suffix -/
+def rawKeyS (suffix : Bytes) : Bytes := 0x05 :: (contractAddr ++ suffix)
+def rawKey (k : UInt8) : Bytes := rawKeyS [k]
+/-- key suffix of counter `j` of the wide range (instruction 06) -/
+def rangeSuffix (j : Nat) : Bytes := [0xff, (j / 256).toUInt8, (j % 256).toUInt8]
 
 def le64 (v : Nat) : Bytes := (List.range 8).map fun i => ((v >>> (8 * i)) % 256).toUInt8
 def ofLe64 (b : Bytes) : Nat := (b.zipIdx.map fun (x, i) => x.toNat <<< (8 * i)).foldl (· + ·) 0
 
-/-- sorted association list keyed by the counter index; value `[]` = deleted -/
-def ovPut (k : UInt8) (v : Bytes) : List (UInt8 × Bytes) → List (UInt8 × Bytes)
-  | [] => [(k, v)]
-  | (k', v') :: rest => if k = k' then (k, v) :: rest else if k < k' then (k, v) :: (k', v') :: rest else (k', v') :: ovPut k v rest
+/-- bytewise lexicographic order (the order of the overlay's skip list) -/
+def bytesLt : Bytes → Bytes → Bool
+  | [], [] => false
+  | [], _ :: _ => true
+  | _ :: _, [] => false
+  | x :: xs, y :: ys => if x < y then true else if y < x then false else bytesLt xs ys
 
-def ovGet (k : UInt8) (m : List (UInt8 × Bytes)) : Option Bytes := (m.find? (·.1 == k)).map (·.2)
+/-- sorted association list keyed by the key suffix; value `[]` = deleted -/
+def ovPut (k : Bytes) (v : Bytes) : List (Bytes × Bytes) → List (Bytes × Bytes)
+  | [] => [(k, v)]
+  | (k', v') :: rest => if k = k' then (k, v) :: rest else if bytesLt k k' then (k, v) :: (k', v') :: rest else (k', v') :: ovPut k v rest
+
+def ovGet (k : Bytes) (m : List (Bytes × Bytes)) : Option Bytes := (m.find? (·.1 == k)).map (·.2)
 
 structure TxRun where
-  cache : List (UInt8 × Bytes) := []
+  cache : List (Bytes × Bytes) := []
   cross : List Hash := []
 
-def readCounter (store : Bytes → Option Bytes) (overlay cache : List (UInt8 × Bytes)) (k : UInt8) : Bytes :=
+def readCounter (store : Bytes → Option Bytes) (overlay cache : List (Bytes × Bytes)) (k : Bytes) : Bytes :=
   match ovGet k cache with
   | some v => v
   | none => match ovGet k overlay with
     | some v => v
-    | none => (store (rawKey k)).getD []
+    | none => (store (rawKeyS k)).getD []
+
+def bump (store : Bytes → Option Bytes) (overlay : List (Bytes × Bytes)) (t : TxRun) (k : Bytes) (d : Nat) : TxRun :=
+  let cur := readCounter store overlay t.cache k
+  let v := (if cur.length = 8 then ofLe64 cur else 0) + d
+  { t with cache := ovPut k (le64 (v % 2^64)) t.cache }
 
 /-- run one program; `none` = the transaction fails and leaves nothing behind -/
-def runProg (H : Bytes → Hash) (store : Bytes → Option Bytes) (overlay : List (UInt8 × Bytes)) :
+def runProg (H : Bytes → Hash) (store : Bytes → Option Bytes) (overlay : List (Bytes × Bytes)) :
     Nat → Bytes → TxRun → Option TxRun
   | 0, _, _ => none
   | _ + 1, [], t => some t
-  | fuel + 1, 1 :: k :: d :: rest, t =>
-    let cur := readCounter store overlay t.cache k
-    let v := (if cur.length = 8 then ofLe64 cur else 0) + d.toNat
-    runProg H store overlay fuel rest { t with cache := ovPut k (le64 (v % 2^64)) t.cache }
-  | fuel + 1, 2 :: k :: rest, t => runProg H store overlay fuel rest { t with cache := ovPut k [] t.cache }
+  | fuel + 1, 1 :: k :: d :: rest, t => runProg H store overlay fuel rest (bump store overlay t [k] d.toNat)
+  | fuel + 1, 2 :: k :: rest, t => runProg H store overlay fuel rest { t with cache := ovPut [k] [] t.cache }
   | fuel + 1, 3 :: b :: rest, t => runProg H store overlay fuel rest { t with cross := t.cross ++ [leafHash H [b]] }
   | fuel + 1, 5 :: _ :: rest, t => runProg H store overlay fuel rest t
+  | fuel + 1, 6 :: nh :: nl :: d :: rest, t =>
+    runProg H store overlay fuel rest
+      ((List.range (nh.toNat * 256 + nl.toNat)).foldl (fun t j => bump store overlay t (rangeSuffix j) d.toNat) t)
   | _ + 1, _, _ => none
 
 def execBlock (H : Bytes → Hash) (store : Bytes → Option Bytes) (b : Block) : ExecResult :=
   let (overlay, cross, notes) := b.txs.foldl
-    (fun (acc : List (UInt8 × Bytes) × List Hash × List (Hash × Bool)) tx =>
+    (fun (acc : List (Bytes × Bytes) × List Hash × List (Hash × Bool)) tx =>
       match runProg H store acc.1 (tx.body.length + 1) tx.body {} with
       | none => (acc.1, acc.2.1, acc.2.2 ++ [(tx.hash, false)])
-      | some t => (t.cache.foldl (fun ov (kv : UInt8 × Bytes) => ovPut kv.1 kv.2 ov) acc.1, acc.2.1 ++ t.cross,
+      | some t => (t.cache.foldl (fun ov (kv : Bytes × Bytes) => ovPut kv.1 kv.2 ov) acc.1, acc.2.1 ++ t.cross,
                    acc.2.2 ++ [(tx.hash, true)]))
     ([], [], [])
-  let ws := overlay.map fun (kv : UInt8 × Bytes) => (rawKey kv.1, kv.2)
+  let ws := overlay.map fun (kv : Bytes × Bytes) => (rawKeyS kv.1, kv.2)
   { writeSet := ws, changeHash := H (ws.flatMap fun kv => kv.1 ++ kv.2), crossHashes := cross, notifies := notes }
 
 /-! ### signature tokens -/
@@ -139,6 +155,11 @@ def observe (p : Params) (s : State) : String :=
     | none => none
     | some v => if v.length = 8 then some s!"{k}={ofLe64 v}" else some s!"{k}=?"
   let cnt := if cnts.isEmpty then "-" else ",".intercalate cnts
+  let rng := match d.states.kv (rawKeyS (rangeSuffix 0)) with
+    | none => "-"
+    | some _ => hex ((p.H ((List.range 400).flatMap fun i =>
+        let v := (d.states.kv (rawKeyS (rangeSuffix (5 * i)))).getD []
+        v.length.toUInt8 :: v)).take 8)
   let xr := hex ((p.H ((List.range (m.currHeight + 1)).flatMap fun i =>
     match d.states.crossAt i with | some (_, r) => r | none => zeroHash)).take 8)
   let nev := match d.events.byBlock m.currHeight with
@@ -147,7 +168,7 @@ def observe (p : Params) (s : State) : String :=
   let e := e1 ++ e2 ++ e3 ++ e4 ++ e5
   s!"bh={m.currHeight} tip={hex m.currHash} sh={sh} stip={hex stip} eh={eh} hh={headerHeight m} " ++
   s!"bt={m.blockTree.length}/{btStored}:{hex (treeRoot p m.blockTree)} " ++
-  s!"st={m.stateTree.length}/{stStored}:{hex (treeRoot p m.stateTree)}:{hex srStored} cnt={cnt} xr={xr} nev={nev} " ++
+  s!"st={m.stateTree.length}/{stStored}:{hex (treeRoot p m.stateTree)}:{hex srStored} cnt={cnt} rng={rng} xr={xr} nev={nev} " ++
   s!"peers={showSet m.peersH}|{showSet m.peersB} cache={m.cache.length} fl={d.fileLen} e={if e.isEmpty then "-" else e}"
 
 def flipRoot (h : Hash) : Hash := h.zipIdx.map fun (x, i) => if i = 3 then x ^^^ 0x10 else x
@@ -187,11 +208,17 @@ def crashOp (w : World) (p : Params) (g : Block) (s : State) (name k : String) (
   | some b, some k, some rl =>
     if b.header.height ≤ s.mem.currHeight then (w, "nocrash:ok " ++ observe p s)
     else
-    let root := (executeBlock p s b).2
-    match addBlock p s b root with
+    let ex := executeBlock p s b
+    -- the verdict of AddBlock up to the point where submitBlock starts writing (the execution result is reused)
+    let verdict : Except Err Unit :=
+      if b.header.height ≠ s.mem.currHeight + 1 then .error .height
+      else match verifyHeader p s b.header s.mem.peersB with
+        | .error e => .error e
+        | .ok _ => submitGuards p s b
+    match verdict with
     | .error e => (w, "nocrash:err:" ++ errName e ++ " " ++ observe p s)
     | .ok _ =>
-      match crashDurable p s b (executeBlock p s b).1 k with
+      match crashDurable p s b ex.1 k with
       | none => (w, "nocrash:err:other " ++ observe p s)
       | some d0 =>
         let (d, pat) := rl.foldl (fun (acc : Durable × String) r =>
